@@ -497,6 +497,10 @@ def main(tier):
              [("open", "main.asm", "ma", TEXTS["ma"]), ("nonfile", "open")],                                    # an unsaved (untitled:) document
              [("open", "main.asm", "mb", TEXTS["mb"]), ("nonfile", "definition")],
              [("open", "main.asm", "ma", TEXTS["ma"]), ("req", "prepareRename", "main.asm", 2, 400)],
+             # exactly one line past the last one (the boundary of the line check), for both handlers that slice the line
+             [("open", "main.asm", "ma", TEXTS["ma"]), ("req", "completion", "main.asm", TEXTS["ma"].count("\n") + 1, 0)],
+             [("open", "main.asm", "ma", TEXTS["ma"]), ("req", "prepareRename", "main.asm", TEXTS["ma"].count("\n") + 1, 0)],
+             [("open", "main.asm", "ma", TEXTS["ma"]), ("req", "completion", "main.asm", TEXTS["ma"].count("\n"), 0)],
              [("open", "main.asm", "ma", TEXTS["ma"]), ("req", "completion", "main.asm", 400, 0)],
              [("open", "main.asm", "ma", TEXTS["ma"]), ("req", "completion", "main.asm", 2, 15)]]
     scripts = [("fixed", sc, "A") for sc in fixed] + [("tlc", script_of_hist(h), lay) for lay, h in hists] + [("sim", script_of_hist(h), lay) for lay, h in longer]
@@ -522,7 +526,7 @@ def main(tier):
     if {"PrepareRenameSlicesPastEol", "SourceLinePastEof", "CompletionSplitsInsideChar"} - open_devs:
         pv, _ = V.judge(judge_mod, recs[:600], cfg=judge_cfg, env={"DEVS": devs_pinned}, tag="C14-pinned", batch=600, timeout=1800)
         npin = sum(1 for v in pv if v["verdict"] == "drift")
-        if npin == 0:
+        if npin == 0 and not any(v["verdict"] == "violation" for v in verdicts):      # (a guard never outranks a verdict)
             raise V.ToolError("binding: the pinned reading (all deviations) explains recordings of a tree in which position defects are repaired")
         rep.notes.append("pinned reading refuted on the recordings: %d requests answered where it predicts a crash" % npin)
     rep.add_stats(st)
